@@ -42,14 +42,14 @@ pub trait HasChildren: HasContext {
     fn insert_by_id(&self, value: Rc<XmlItem>, id: Option<usize>) -> error::Result<Rc<XmlItem>>;
 
     fn append(&self, value: Rc<XmlItem>) -> error::Result<Rc<XmlItem>> {
-        let id = self.last_child_or_self_id();
-        value.set_order_after(id);
-        self.insert_by_id(value, None)
+        let value = self.insert_by_id(value, None)?;
+        self.context().invalidate_order();
+        Ok(value)
     }
 
     fn delete(&self, id: usize) -> Option<Rc<XmlItem>> {
         if let Some(v) = self.delete_by_id(id) {
-            v.clear_order();
+            self.context().invalidate_order();
             Some(v)
         } else {
             None
@@ -67,10 +67,9 @@ pub trait HasChildren: HasContext {
 
     fn insert_before(&self, value: Rc<XmlItem>, id: usize) -> error::Result<Rc<XmlItem>> {
         self.child_index(id).ok_or(error::Error::OufOfIndex(id))?;
-        value
-            .set_order_before(id)
-            .ok_or(error::Error::OufOfIndex(id))?;
-        self.insert_by_id(value, Some(id))
+        let value = self.insert_by_id(value, Some(id))?;
+        self.context().invalidate_order();
+        Ok(value)
     }
 }
 
@@ -106,6 +105,8 @@ pub trait HasContext {
     }
 
     fn order(&self) -> usize {
+        self.context().renumber_if_invalid();
+
         let cache_version = self.context().info.borrow().order_version;
         let order_version = self.context().ordering.borrow().version;
         if cache_version < order_version {
@@ -739,9 +740,9 @@ impl XmlAttribute {
             self.values.borrow_mut().clear();
 
             for v in attr.borrow().values.borrow().as_slice() {
-                v.init_order_recursive();
                 v.set_parent_id(Some(self.id()));
             }
+            self.context().invalidate_order();
 
             self.values
                 .borrow_mut()
@@ -2347,8 +2348,8 @@ impl XmlElement {
     }
 
     pub fn append_attribute(&mut self, attr: Rc<XmlItem>) {
-        attr.init_order_recursive();
         self.attributes.push(attr);
+        self.context().invalidate_order();
     }
 
     pub fn namespaces(&self) -> error::Result<Vec<XmlNode<XmlNamespace>>> {
@@ -2386,7 +2387,7 @@ impl XmlElement {
         {
             self.attributes
                 .retain(|v| v.as_attribute().unwrap().borrow().local_name() != name);
-            v.clear_order();
+            self.context().invalidate_order();
             Some(v)
         } else {
             None
@@ -2974,26 +2975,6 @@ impl XmlItem {
         }
     }
 
-    fn clear_order(&self) {
-        match self {
-            XmlItem::Attribute(v) => v.borrow().clear_order(),
-            XmlItem::CData(v) => v.borrow().clear_order(),
-            XmlItem::CharReference(v) => v.borrow().clear_order(),
-            XmlItem::Comment(v) => v.borrow().clear_order(),
-            XmlItem::DeclarationAttList(v) => v.borrow().clear_order(),
-            XmlItem::Document(v) => v.borrow().clear_order(),
-            XmlItem::DocumentType(v) => v.borrow().clear_order(),
-            XmlItem::Element(v) => v.borrow().clear_order(),
-            XmlItem::Entity(v) => v.borrow().clear_order(),
-            XmlItem::Namespace(v) => v.borrow().clear_order(),
-            XmlItem::Notation(v) => v.borrow().clear_order(),
-            XmlItem::PI(v) => v.borrow().clear_order(),
-            XmlItem::Text(v) => v.borrow().clear_order(),
-            XmlItem::Unexpanded(v) => v.borrow().clear_order(),
-            XmlItem::Unparsed(v) => v.borrow().entity().borrow().clear_order(),
-        }
-    }
-
     pub fn id(&self) -> usize {
         match self {
             XmlItem::Attribute(v) => v.borrow().id(),
@@ -3113,45 +3094,6 @@ impl XmlItem {
         }
     }
 
-    fn set_order_after(&self, id: usize) -> Option<usize> {
-        match self {
-            XmlItem::Attribute(v) => v.borrow().set_order_after(id),
-            XmlItem::CData(v) => v.borrow().set_order_after(id),
-            XmlItem::CharReference(v) => v.borrow().set_order_after(id),
-            XmlItem::Comment(v) => v.borrow().set_order_after(id),
-            XmlItem::DeclarationAttList(v) => v.borrow().set_order_after(id),
-            XmlItem::Document(v) => v.borrow().set_order_after(id),
-            XmlItem::DocumentType(v) => v.borrow().set_order_after(id),
-            XmlItem::Element(v) => v.borrow().set_order_after(id),
-            XmlItem::Entity(v) => v.borrow().set_order_after(id),
-            XmlItem::Namespace(v) => v.borrow().set_order_after(id),
-            XmlItem::Notation(v) => v.borrow().set_order_after(id),
-            XmlItem::PI(v) => v.borrow().set_order_after(id),
-            XmlItem::Text(v) => v.borrow().set_order_after(id),
-            XmlItem::Unexpanded(v) => v.borrow().set_order_after(id),
-            XmlItem::Unparsed(v) => v.borrow().entity().borrow().set_order_after(id),
-        }
-    }
-
-    fn set_order_before(&self, id: usize) -> Option<usize> {
-        match self {
-            XmlItem::Attribute(v) => v.borrow().set_order_before(id),
-            XmlItem::CData(v) => v.borrow().set_order_before(id),
-            XmlItem::CharReference(v) => v.borrow().set_order_before(id),
-            XmlItem::Comment(v) => v.borrow().set_order_before(id),
-            XmlItem::DeclarationAttList(v) => v.borrow().set_order_before(id),
-            XmlItem::Document(v) => v.borrow().set_order_before(id),
-            XmlItem::DocumentType(v) => v.borrow().set_order_before(id),
-            XmlItem::Element(v) => v.borrow().set_order_before(id),
-            XmlItem::Entity(v) => v.borrow().set_order_before(id),
-            XmlItem::Namespace(v) => v.borrow().set_order_before(id),
-            XmlItem::Notation(v) => v.borrow().set_order_before(id),
-            XmlItem::PI(v) => v.borrow().set_order_before(id),
-            XmlItem::Text(v) => v.borrow().set_order_before(id),
-            XmlItem::Unexpanded(v) => v.borrow().set_order_before(id),
-            XmlItem::Unparsed(v) => v.borrow().entity().borrow().set_order_before(id),
-        }
-    }
 }
 
 // -----------------------------------------------------------------------------------------------
@@ -4060,6 +4002,27 @@ impl Context {
         }
     }
 
+    /// Marks the document order as stale after a structural edit.
+    fn invalidate_order(&self) {
+        self.ordering.borrow_mut().invalid = true;
+    }
+
+    /// Renumbers the nodes attached to the document in document order.
+    fn renumber_if_invalid(&self) {
+        if !self.ordering.borrow().invalid {
+            return;
+        }
+
+        {
+            let mut ordering = self.ordering.borrow_mut();
+            ordering.order.clear();
+            ordering.version += 1;
+            ordering.invalid = false;
+        }
+
+        self.document().borrow().init_order_recursive();
+    }
+
     pub fn set_text_expanded(&mut self, value: bool) {
         self.text_expanded = value;
     }
@@ -4142,6 +4105,7 @@ impl fmt::Debug for ContextInfo {
 struct DocumentOrder {
     order: Vec<Weak<RefCell<ContextInfo>>>,
     version: usize,
+    invalid: bool,
 }
 
 impl DocumentOrder {
